@@ -228,8 +228,25 @@ type histInfo struct {
 	gets         int
 }
 
+// valueMaps: the i-th sample added (i = 1, 2, ...) has the value valueMaps[vm].f(i). Windows whose samples are
+// all positive cannot tell a min/max/avg computed from the samples from one seeded with a zero; all-negative
+// and sign-alternating (with a genuine 0) windows can.
+var valueMaps = []struct {
+	name string
+	f    func(i int64) int64
+}{
+	{"", func(i int64) int64 { return i }},
+	{"neg", func(i int64) int64 { return -i }},
+	{"alt", func(i int64) int64 {
+		if i%2 == 1 {
+			return -(i / 2) // 0, -1, -2, ...
+		}
+		return 10 * i
+	}},
+}
+
 // runWindowHistory executes one timed history on the real code and judges every observation.
-func runWindowHistory(h []byte) ([]winFailure, histInfo) {
+func runWindowHistory(h []byte, vm int) ([]winFailure, histInfo) {
 	total := 0
 	for _, e := range h {
 		total += evDur(e)
@@ -267,12 +284,13 @@ func runWindowHistory(h []byte) ([]winFailure, histInfo) {
 					// the cleaner is a forever-running service goroutine
 					vsched.SetGoDaemon(true)
 				}
-				st.AddSample(winKey, next)
+				val := valueMaps[vm].f(next)
+				st.AddSample(winKey, val)
 				if first {
 					vsched.SetGoDaemon(false)
 					vsched.Settle() // the cleaner starts and creates its ticker now
 				}
-				m.add(next)
+				m.add(val)
 				next++
 				observe(i, "add")
 			case 'G':
